@@ -14,11 +14,44 @@ ASSUMPTIONS = ["the dependency-declaring macros are rEnabledBy, rDepends and rDe
 DEP_MACROS = ("rEnabledBy", "rDepends", "rDefaultDepends")
 
 
+def per_message_state(ctx, u, rule):
+    """Dependency discovery for one message must not depend on the other messages: every argument that scan_deps can
+    modify (non-const reference / pointer parameter) is, at the call in the per-message loop, a variable declared
+    inside that loop."""
+    fn = u.function("scan_deps")
+    ps = u.params(fn)
+    mut = [(i, p) for i, p in enumerate(ps) if ("&" in A.stype(p) or "*" in A.stype(p)) and not A.stype(p).lstrip().startswith("const ")]
+    caller = u.function("dispatch_printed_messages")
+    calls = [c for c in A.calls_in(u.body(caller), "scan_deps")]
+    ctx.require(len(calls) >= 1, "dispatch_printed_messages no longer calls scan_deps")
+    shared = []
+    for c in calls:
+        loop = None
+        for a in u.ancestors(c):
+            if a.get("kind") in ("CXXForRangeStmt", "ForStmt", "WhileStmt", "DoStmt"):
+                loop = a
+                break
+        for i, p in mut:
+            arg = A.kids(c)[1 + i]
+            vid = A.ref_id(arg)
+            inside = False
+            if loop is not None and vid is not None:
+                inside = any(y.get("kind") == "VarDecl" and y.get("id") == vid for y in A.walk(loop))
+            if not inside:
+                shared.append("%s (%s)" % (p.get("name"), A.stype(p)))
+    statics = [y.get("name") for y in A.walk(u.body(fn)) if y.get("kind") == "VarDecl" and y.get("storageClass") == "static"]
+    ctx.ob(rule, "scan_deps keeps no state across messages", not shared and not statics, site=A.where(fn),
+           detail={"mutable_parameters": [p.get("name") for _, p in mut], "shared_across_messages": shared, "static_locals": statics},
+           what="scan_deps is handed mutable state that outlives one message (%s): the edges found for a message depend on which messages were scanned before it" % (shared + statics))
+
+
 def run(ctx):
     u = ctx.ast("savefile.cpp")
     em = MK.emitted_by_macro(ctx.ast("meta_matrix.cpp"))
     ctx.rule("R13.1", "DEPKEYS: the key set scan_deps iterates over == the keys emitted by rEnabledBy / rDepends / rDefaultDepends, and each is used as the metadata lookup key")
+    ctx.rule("R13.3", "PER-MESSAGE: scan_deps receives no mutable state that is shared between the messages of one file (the dependency edges of a line must not depend on the other lines)")
     ctx.rule("R13.2", "DEPVALUE: the separator scan_deps splits dependency values at is the one rDepends emits between paths")
+    per_message_state(ctx, u, "R13.3")
     fn = u.function("scan_deps")
     # the array of key literals that a range-for iterates over
     arrays = []
